@@ -249,6 +249,12 @@ func init() {
 
 	otherChecks["C17"] = func(tier string, seed uint64) int {
 		t0 := time.Now()
+		for _, b := range []string{"calcHermesBatch", "hermes2go"} {
+			if _, err := os.Stat(filepath.Join(verifDir, ".build", b)); err != nil {
+				fmt.Println("INCONCLUSIVE: binary not built:", b)
+				return 2
+			}
+		}
 		rs := runFnSharded("C17", tier, seed, fnShards["C17"], 3000)
 		cases, inc := fnToCases("C17", seed, rs, func(r *FnResult) string { return "crash:partition_engine" })
 		maxL, maxK := 24, 26
